@@ -546,13 +546,20 @@ func (b *Blinder) createBlindedOutputs(
 		indexLoop++
 	}
 
-	for outputIndex := range b.blindingPubKeyByOutputIndex {
+	// the result slices hold one entry per blinded output, in the order of the
+	// sorted output indexes (outputs with an empty script were skipped above)
+	pos := 0
+	for _, outputIndex := range b.sortedOutputIndexesToBlind() {
 		out := b.pset.UnsignedTx.Outputs[outputIndex]
-		out.Asset = assetCommitments[outputIndex]
-		out.Value = valueCommitments[outputIndex]
-		out.Nonce = nonceCommitments[outputIndex]
-		out.RangeProof = rangeProofs[outputIndex]
-		out.SurjectionProof = surjectionProofs[outputIndex]
+		if len(out.Script) == 0 {
+			continue
+		}
+		out.Asset = assetCommitments[pos]
+		out.Value = valueCommitments[pos]
+		out.Nonce = nonceCommitments[pos]
+		out.RangeProof = rangeProofs[pos]
+		out.SurjectionProof = surjectionProofs[pos]
+		pos++
 	}
 
 	return nil
